@@ -187,9 +187,8 @@ inline constexpr void Conversion<Unit::SubstanceAmount, Unit::SubstanceAmount::P
 }
 
 template <typename NumericType>
-inline const std::
-    map<Unit::SubstanceAmount, std::function<void(NumericType* values, const std::size_t size)>>
-        MapOfConversionsFromStandard<Unit::SubstanceAmount, NumericType>{
+inline constexpr auto MapOfConversionsFromStandard<Unit::SubstanceAmount, NumericType>{
+  MakeConversionTable<Unit::SubstanceAmount, NumericType>({
           {Unit::SubstanceAmount::Mole,
            Conversions<Unit::SubstanceAmount, Unit::SubstanceAmount::Mole>::
                FromStandard<NumericType>},
@@ -205,12 +204,12 @@ inline const std::
           {Unit::SubstanceAmount::Particles,
            Conversions<Unit::SubstanceAmount, Unit::SubstanceAmount::Particles>::
                FromStandard<NumericType>},
+})
 };
 
 template <typename NumericType>
-inline const std::map<Unit::SubstanceAmount,
-                      std::function<void(NumericType* const values, const std::size_t size)>>
-    MapOfConversionsToStandard<Unit::SubstanceAmount, NumericType>{
+inline constexpr auto MapOfConversionsToStandard<Unit::SubstanceAmount, NumericType>{
+  MakeConversionTable<Unit::SubstanceAmount, NumericType>({
       {Unit::SubstanceAmount::Mole,
        Conversions<Unit::SubstanceAmount, Unit::SubstanceAmount::Mole>::ToStandard<NumericType>},
       {Unit::SubstanceAmount::Kilomole,
@@ -225,6 +224,7 @@ inline const std::map<Unit::SubstanceAmount,
       {Unit::SubstanceAmount::Particles,
        Conversions<Unit::SubstanceAmount, Unit::SubstanceAmount::Particles>::
            ToStandard<NumericType>                    },
+})
 };
 
 }  // namespace Internal
